@@ -8,6 +8,7 @@
 #define SPECTRA_DENSE_HERM_MAT_PROD_H
 
 #include <Eigen/Core>
+#include <stdexcept>
 
 namespace Spectra {
 
@@ -61,6 +62,9 @@ public:
         static_assert(
             static_cast<int>(Derived::PlainObject::IsRowMajor) == static_cast<int>(Matrix::IsRowMajor),
             "DenseHermMatProd: the \"Flags\" template parameter does not match the input matrix (Eigen::ColMajor/Eigen::RowMajor)");
+
+        if (mat.rows() != mat.cols())
+            throw std::invalid_argument("DenseHermMatProd: matrix must be square");
     }
 
     ///
